@@ -287,24 +287,51 @@ class SymInf:
 class SymReal:
     """An exact real: either a concrete Fraction `c`, or z3 terms n/d (d None = 1)."""
 
-    __slots__ = ("c", "n", "d")
+    __slots__ = ("c", "_n", "d", "lin")
+
+    # `lin`: canonical linear form (const: Fraction, {id(var): (z3 var, Fraction coeff)}) when the value is an affine combination of input
+    # variables, else None.  Sums built in different association orders then get the SAME z3 term (built lazily, variables sorted by
+    # AST id), so the n-ary max / min nodes de-duplicate them - at minimal knowledge every split of a coalition collapses to one term.
+    @property
+    def n(self):
+        t = self._n
+        if t is None and self.lin is not None:
+            const, terms = self.lin
+            parts = []
+            for k in sorted(terms):
+                x, co = terms[k]
+                parts.append(x if co == 1 else x * qval(co))
+            if const != 0 or not parts:
+                parts.append(qval(const))
+            t = parts[0]
+            for q in parts[1:]:
+                t = t + q
+            self._n = t
+        return t
+
+    @n.setter
+    def n(self, value):
+        self._n = value
 
     def __new__(cls, x=0, d=None):
         if isinstance(x, SymReal) and d is None:
             return x
         o = object.__new__(cls)
         o.c = None
-        o.n = None
+        o._n = None
         o.d = None
+        o.lin = None
         if isinstance(x, z3.ExprRef):
             if d is None and z3.is_rational_value(x):
                 o.c = x.as_fraction()
             else:
-                o.n = x
+                o._n = x
                 o.d = d
+                if d is None and z3.is_const(x) and x.decl().kind() == z3.Z3_OP_UNINTERPRETED:
+                    o.lin = (_ZERO, {x.get_id(): (x, _ONE)})
             return o
         if isinstance(x, SymBool):
-            o.n = z3.If(x.t, z3.RealVal(1), z3.RealVal(0))
+            o._n = z3.If(x.t, z3.RealVal(1), z3.RealVal(0))
             return o
         f = _frac(x)
         if f is None:
@@ -339,8 +366,9 @@ class SymReal:
             return NotImplemented
         o = object.__new__(SymReal)
         o.c = f
-        o.n = None
+        o._n = None
         o.d = None
+        o.lin = None
         return o
 
     @property
@@ -385,6 +413,14 @@ class SymReal:
             return self
         if self.c is not None and self.c == 0:
             return o if sign > 0 else -o
+        la, lb = _lin_of(self), _lin_of(o)
+        if la is not None and lb is not None:
+            terms = dict(la[1])
+            for k, (x, co) in lb[1].items():
+                cur = terms.get(k)
+                nc = (cur[1] if cur else _ZERO) + (co if sign > 0 else -co)
+                terms[k] = (x, nc)
+            return _from_lin(la[0] + lb[0] if sign > 0 else la[0] - lb[0], terms)
         if self.d is None and o.d is None:
             return SymReal(self.num + o.num if sign > 0 else self.num - o.num)
         if self.c is None and o.c is None and self._same_den(o):
@@ -419,6 +455,8 @@ class SymReal:
     def __neg__(self):
         if self.c is not None:
             return _const(-self.c)
+        if self.lin is not None and self.d is None:
+            return _from_lin(-self.lin[0], {k: (x, -co) for k, (x, co) in self.lin[1].items()})
         return SymReal(-self.n, self.d)
 
     def __pos__(self):
@@ -455,6 +493,8 @@ class SymReal:
                 return _const(_ZERO)
             if o.c == 1:
                 return self
+            if self.lin is not None and self.d is None:
+                return _from_lin(self.lin[0] * o.c, {k: (x, co * o.c) for k, (x, co) in self.lin[1].items()})
             return SymReal(self.n * qval(o.c), self.d)
         # both symbolic; cancel (a/g) * g
         if self.d is not None and o.d is None and self.d.eq(o.n):
@@ -485,6 +525,8 @@ class SymReal:
                 return _const(self.c / o.c)
             if o.c == 1:
                 return self
+            if self.lin is not None and self.d is None:
+                return _from_lin(self.lin[0] / o.c, {k: (x, co / o.c) for k, (x, co) in self.lin[1].items()})
             return SymReal(self.n / qval(o.c), self.d)
         # symbolic divisor
         if self.c is not None and self.c == 0:
@@ -647,9 +689,32 @@ class SymReal:
 def _const(f: Fraction) -> SymReal:
     o = object.__new__(SymReal)
     o.c = f
-    o.n = None
+    o._n = None
     o.d = None
+    o.lin = None
     return o
+
+
+def _from_lin(const, terms) -> SymReal:
+    """Value with the canonical linear form (const, terms); collapses to a constant when no variable is left."""
+    terms = {k: v for k, v in terms.items() if v[1] != 0}
+    if not terms:
+        return _const(const)
+    o = object.__new__(SymReal)
+    o.c = None
+    o._n = None
+    o.d = None
+    o.lin = (const, terms)
+    return o
+
+
+def _lin_of(x):
+    """(const, terms) of a SymReal that is concrete or carries a linear form and has no denominator; None otherwise."""
+    if x.c is not None:
+        return (x.c, {})
+    if x.lin is not None and x.d is None:
+        return x.lin
+    return None
 
 
 def sreal(x) -> SymReal:
@@ -679,6 +744,15 @@ def sym_ite(c, a, b):
 def _same_term(a: SymReal, b: SymReal) -> bool:
     if a.c is not None or b.c is not None:
         return a.c is not None and b.c is not None and a.c == b.c
+    if a.lin is not None and b.lin is not None and a.d is None and b.d is None:
+        if a.lin[0] != b.lin[0] or len(a.lin[1]) != len(b.lin[1]):
+            return False
+        tb = b.lin[1]
+        for k, (_x, co) in a.lin[1].items():
+            y = tb.get(k)
+            if y is None or y[1] != co:
+                return False
+        return True
     return a.n.eq(b.n) and a._same_den(b)
 
 
